@@ -46,8 +46,6 @@ def cases(tier, seed):
                     yield dict(env='ideal' if ground else 'free', f=f, lam=lam, pts=pts, st=st, fine=fine)
     for c in c06.extras(tier, seed):
         for i, ws in enumerate(c['descs']):
-            if tier == 'quick' and i not in (0, 3, 5, 6):
-                continue
             yield dict(env=c['env'], f=c['f'], lam=c['lam'], wires=ws, srcs=c['srcs'], name='%s#%d' % (c['extra'], i), fine=False)
     # arrays of EXACTLY vertical wires away from the z axis (phased / parasitic verticals, grounded monopoles): the only
     # azimuth dependence is the array factor
@@ -117,6 +115,8 @@ def evaluate(c):
             worst, wn = x / tol, sig
         if not (x <= tol):
             viol.append((sig, '%s: %s (%.3g > %.3g)' % (name, msg, x, tol)))
+    for a_, b_ in geom.pulse_geometry_violations(m)[:3]:       # the reference sums over the model's pulse table: check that table
+        viol.append((a_, '%s: %s' % (name, b_)))
     ths = [math.radians(zen[0] + i * zen[1]) for i in range(zen[2])]
     phs = [math.radians(azi[0] + j * azi[1]) for j in range(azi[2])]
     ref_m = np.array([[ffref.field(m, th, ph, True) for th in ths] for ph in phs])        # (nphi, ntheta, 2)
